@@ -35,7 +35,8 @@ theorem upCtx {c : Cfg} {ar aq : Nat} {s : S} (h : Inv c ar aq s) (hrun : s.runn
     UpCtx c s := by
   have hcl := inv_not_cleaned h hrun
   obtain ⟨hlc, _, hur, htm, _, _, _⟩ := h.k15 hcl hupp
-  obtain ⟨hsr, hdir⟩ := h.k7 hcl
+  have hsr := (h.k7 hcl).1
+  have hdir : s.direct = false := not_direct_of_phase h.k7 hcl (by intro hh; rw [hh] at hupp; simp [upPhase] at hupp)
   have hpd : s.procDone = false := by
     cases hh : s.procDone with
     | false => rfl
@@ -62,7 +63,7 @@ theorem inv_up_state (c : Cfg) (ar aq : Nat) (s' : S) (q : Phase) (b : Base c ar
   refine ⟨?_, k1, k2, h3, k4, ?_, h6, ?_, ?_, k9, k10, k11, k12, k13, k14, ?_, ?_, ?_, ?_, ?_, k20, k21, k22, ?_, h24, h25, ?_, ?_, h28, ?_, ?_, k31, ?_, (fun hh => absurd hh (by simp [hcl]))⟩
   · simp [K0, hrun, hcl]
   · intro hh; rw [hpd] at hh; cases hh
-  · intro _; exact ⟨hsr, hdir⟩
+  · exact k7_intro hsr hdir
   · intro _; exact ⟨h8, Or.inr (Or.inl (by rw [hph]; exact hupq))⟩
   · intro _ _
     refine ⟨hlc, hresp, hur, htm, ?_, ?_, ?_⟩
@@ -195,7 +196,7 @@ theorem inv_work_urh (c : Cfg) (ar aq : Nat) (s : S) (h : Inv c ar aq s) (hrun :
   by_cases hdr : s.downReset = true
   · have e : (processDone s || s.setupRetry) = true := by simp [processDone, hdr]
     rw [if_pos e]
-    apply finish_inv c ar aq s h hrun (by intro hh; rw [hp] at hh; cases hh)
+    apply finish_inv c ar aq s h hrun (by intro hh; rw [hp] at hh; cases hh) (by intro hh; rw [hp] at hh; cases hh)
     intro _ h2; rw [hdr] at h2; cases h2
   · simp only [Bool.not_eq_true] at hdr
     have e : (processDone s || s.setupRetry) = false := by simp [processDone, hpd, hdr, hur, hsr]
@@ -235,7 +236,7 @@ theorem inv_work_urh (c : Cfg) (ar aq : Nat) (s : S) (h : Inv c ar aq s) (hrun :
     have hrs1 : s1.rs.isSome = true := by rw [hf.2.1]; exact hrs
     have h25_1 : K25 c s1 := by intro _ how _; rw [f_ps]; exact h.k25 hcl how hrs
     have h24_1 : K24 c s1 := by
-      intro _ how hq _; rw [f_gt, f_ge]; exact h.k24 hcl how (by rw [← f_rq]; exact hq) hrs
+      intro _ how hq _; rw [f_gt, f_ge, f_dir]; exact h.k24 hcl how (by rw [← f_rq]; exact hq) hrs
     have h28_1 : K28 s1 := by
       intro _ hn; rw [f_urr, f_ur, f_dr]; exact h.k28 hcl (by rw [← f_nt]; exact hn)
     -- sending the headers after the decision "no retry"
@@ -360,7 +361,7 @@ theorem inv_work_urh (c : Cfg) (ar aq : Nat) (s : S) (h : Inv c ar aq s) (hrun :
             show s2.global = true
             rw [g_gt]
             have hq' : s.reqSent = true := by rw [← g_rq]; exact hq
-            rcases h.k24 hcl how hq' hrs with hh | hh
+            rcases or3_nd (h.k24 hcl how hq' hrs) hdir with hh | hh
             · exact hh
             · rw [← f_ge, hge] at hh; cases hh
           · exact hl2.2.1
